@@ -72,6 +72,7 @@ pub fn dispatch_child(op: &str, input: &[u8]) -> String {
     match op {
         "bdec" => wire::bdec_value(input),
         "rr" => reqrep::child(input),
+        "ps" => pubsub::child(input),
         other => codec::child(other, input).unwrap_or_else(|| format!("unknown-op {other}")),
     }
 }
